@@ -84,6 +84,9 @@ pub struct SchedCase {
   /// `napoints`: the arena's zero-fill is a scheduling point of its own (search mode; such traces are not
   /// compared with the step machine, whose steps are atomic accesses)
   pub napoints: bool,
+  /// `noclone`: the threads share arena value 0 BY REFERENCE (no per-thread clone, `refs()` stays what it is, nothing
+  /// is dropped at the end of a thread's program)
+  pub noclone: bool,
 }
 
 impl SchedCase {
@@ -108,6 +111,9 @@ impl SchedCase {
     }
     if self.napoints {
       let _ = writeln!(s, "napoints");
+    }
+    if self.noclone {
+      let _ = writeln!(s, "noclone");
     }
     s.push_str("end\n");
     s
@@ -182,6 +188,8 @@ fn parse_one(lines: &[&str]) -> Result<SchedCase, String> {
       c.crash = true;
     } else if *l == "napoints" {
       c.napoints = true;
+    } else if *l == "noclone" {
+      c.noclone = true;
     } else {
       return Err(format!("line {l:?}"));
     }
@@ -390,6 +398,7 @@ struct Global {
   out: String,
   loc: Loc,
   napoints: bool,
+  noclone: bool,
 }
 
 static GL: Mutex<Global> = Mutex::new(Global {
@@ -398,6 +407,7 @@ static GL: Mutex<Global> = Mutex::new(Global {
   out: String::new(),
   loc: Loc { hdr: 0, refs: 0, base: 0, cap: 0 },
   napoints: false,
+  noclone: false,
 });
 static CV: Condvar = Condvar::new();
 
@@ -815,7 +825,8 @@ fn worker(sh: ShPtr, epoch: u64, tid: usize, ops: Vec<String>) {
   ROLE.with(|r| r.set(Role::Worker { epoch, tid }));
   UNMOUNT.with(|u| u.set(0));
   INVAL.with(|c| c.set(None));
-  let aid = THREAD_ARENA_BASE + tid as u32;
+  let noclone = gl().noclone;
+  let aid = if noclone { 0 } else { THREAD_ARENA_BASE + tid as u32 };
   let cur = Cell::new(0usize);
   let r = catch_unwind(AssertUnwindSafe(|| {
     for (i, op) in ops.iter().enumerate() {
@@ -834,7 +845,7 @@ fn worker(sh: ShPtr, epoch: u64, tid: usize, ops: Vec<String>) {
     // end of the program: the thread drops its own clone (reported), unless a borrowed handle
     // still needs it
     let s = unsafe { &mut *sh.0 };
-    if !s.borrowed(aid) {
+    if !noclone && !s.borrowed(aid) {
       if let Some(p) = s.case.arenas.remove(&aid) {
         s.case.graveyard.push(p);
         unsafe { std::ptr::drop_in_place(p) };
@@ -979,9 +990,11 @@ pub fn run_case(sc: &SchedCase, tmp: &Path, case_no: u64) -> Outcome1 {
   {
     let s = shared();
     let a0: &'static Arena = s.case.cur();
-    for (tid, _) in &sc.threads {
-      let p = Box::into_raw(Box::new(a0.clone()));
-      s.case.arenas.insert(THREAD_ARENA_BASE + *tid as u32, p);
+    if !sc.noclone {
+      for (tid, _) in &sc.threads {
+        let p = Box::into_raw(Box::new(a0.clone()));
+        s.case.arenas.insert(THREAD_ARENA_BASE + *tid as u32, p);
+      }
     }
     let mut g = gl();
     g.epoch += 1;
@@ -989,6 +1002,7 @@ pub fn run_case(sc: &SchedCase, tmp: &Path, case_no: u64) -> Outcome1 {
     g.th = [TH0; 9];
     g.out = std::mem::take(&mut out);
     g.napoints = sc.napoints;
+    g.noclone = sc.noclone;
     g.loc = Loc {
       hdr: a0.verif_header_ptr() as usize,
       refs: a0.verif_refs_ptr() as usize,
